@@ -160,7 +160,9 @@ class FakeSnowflakeCursor:
 
     def _transform(self, expression: exp.Expression) -> exp.Expression:
         return (
-            expression.transform(transforms.upper_case_unquoted_identifiers)
+            # identifier('name') first, so that the name it yields is folded like any other unquoted identifier
+            expression.transform(transforms.identifier)
+            .transform(transforms.upper_case_unquoted_identifiers)
             .transform(transforms.dollar_quoted_string)
             .transform(transforms.update_variables, variables=self._conn.variables)
             .transform(transforms.set_schema, current_database=self._conn.database)
@@ -199,7 +201,6 @@ class FakeSnowflakeCursor:
             .transform(transforms.sample)
             .transform(transforms.array_size)
             .transform(transforms.random)
-            .transform(transforms.identifier)
             .transform(transforms.array_agg_within_group)
             .transform(transforms.array_agg)
             .transform(transforms.dateadd_date_cast)
